@@ -278,7 +278,7 @@ def match_finding(f, case):
 def main(tier, seed):
     check = vlib.Check(PROP, tier, seed)
     consts = {'quick': dict(MaxSpine=2, MaxPath=1, MaxPPath=2),
-              'thorough': dict(MaxSpine=2, MaxPath=2, MaxPPath=3)}[tier]
+              'thorough': dict(MaxSpine=2, MaxPath=2, MaxPPath=2)}[tier]
     res, results = vlib.map_states('MC_C01', worker, constants=consts)
     check.add_tlc(res, 'MC_C01 %s' % consts)
     for r in results:
@@ -289,7 +289,7 @@ def main(tier, seed):
             check.sample(s)
         for b in r['bad']:
             check.violation(b['case'], b['why'], matcher=match_finding)
-    nrec = record(check, {'quick': 20000, 'thorough': 300000}[tier], seed)
+    nrec = record(check, {'quick': 20000, 'thorough': 200000}[tier], seed)
     check.extra['recorded_rows'] = nrec
     check.extra['constants'] = consts
     check.assumptions += ['attribute names used are not methods of builtin types',
